@@ -25,12 +25,7 @@ func TestVerifC09(t *testing.T) {
 		ID: "C09", Level: "exploration",
 		Rule:        "exhaustive tables: OPEN with all 64 pflag sets x 6 targets x 2 attr variants, SETSTAT/FSETSTAT with all 16 attr-flag subsets x targets, every other request type against existing/missing/dir/symlink targets, every supported extended name plus near-miss and random names, handle sequences (open for read, then WRITE/FSETSTAT through the handle), each with absolute and working-directory-relative paths; thorough adds seeded request sequences without restoring the tree in between. A class is (request type, flags, target, path style).",
 		Assumptions: []string{"runs as root; the writable twin is the definition of 'would modify' and of 'keeps working'", "atime is not part of the snapshot"},
-		Units: func(tier vfTier, seed uint64) int {
-			if tier == vfThorough {
-				return 2 + 800
-			}
-			return 2 + 2
-		},
+		Units:       func(tier vfTier, seed uint64) int { return c09Units(tier) },
 		Shards: func(tier vfTier) int {
 			if tier == vfThorough {
 				return 8
@@ -42,10 +37,19 @@ func TestVerifC09(t *testing.T) {
 	})
 }
 
+// units: two table units, seeded sequences, and one unit that runs unprivileged (the last)
+func c09Units(tier vfTier) int {
+	if tier == vfThorough {
+		return 2 + 800 + 1
+	}
+	return 2 + 2 + 1
+}
+
 type c09Side struct {
 	root string
 	rs   *vfRawSession
 	id   uint32
+	sent int
 	hmap map[string]string // symbolic handle -> real handle
 }
 
@@ -96,6 +100,11 @@ func (e *c09Env) send(s *c09Side, q c09Req) (vfPkt, error) {
 	p := q.p
 	s.id++
 	p.ID = s.id
+	// the request id is the client's to choose: every third request carries one of the extreme values
+	s.sent++
+	if s.sent%3 == 0 {
+		p.ID = []uint32{0, 0xFFFFFFFF, 1, 0x80000000, 0}[(s.sent/3)%5]
+	}
 	fix := func(x string) string {
 		if x == "" {
 			return x
@@ -525,8 +534,61 @@ func c09Sequences(e *c09Env, n int) {
 	e.closeHandles()
 }
 
+// c09Unprivileged: the purely reading requests again, with the servers (and everything else in the process) running as
+// uid/gid 65534 on a tree owned by root: a read-only server serves what the process may read, like the writable twin.
+// Needs a cgo-free binary; where the ids cannot be switched the unit says so in its counters and checks nothing.
+func c09Unprivileged(u *vfUnit) {
+	base := u.TempDir()
+	for p, k := base, 0; k < 3 && p != "/" && p != filepath.Clean(os.TempDir()); p, k = filepath.Dir(p), k+1 {
+		os.Chmod(p, 0o755)
+	}
+	e, err := c09NewEnv(u, false)
+	if err != nil {
+		u.Inconclusive("setup: %v", err)
+		return
+	}
+	defer e.end()
+	if err := vfSetEffective(65534, 65534); err != nil {
+		u.Count("unprivileged_unavailable", 1)
+		return
+	}
+	defer func() {
+		if err := vfSetEffective(0, 0); err != nil {
+			panic("cannot regain root: " + err.Error())
+		}
+	}()
+	if _, err := os.Stat(filepath.Join(e.ro.root, "f")); err != nil {
+		u.Count("unprivileged_unavailable", 1)
+		return
+	}
+	u.Count("unprivileged_units", 1)
+	for _, tgt := range []string{"f", "d/x", "lf", "missing"} {
+		e.do(c09Req{p: vfPkt{Type: rfOpen, Path: tgt, Pflags: rfRead_}, reading: true, label: "unprivileged/OPEN/read/" + tgt}, "$h")
+		e.do(c09Req{p: vfPkt{Type: rfRead, Handle: "$h", Off: 0, Len: 100}, reading: true, label: "unprivileged/READ/" + tgt}, "")
+		e.do(c09Req{p: vfPkt{Type: rfFstat, Handle: "$h"}, reading: true, label: "unprivileged/FSTAT/" + tgt}, "")
+		e.closeHandles()
+		e.ro.hmap, e.rw.hmap = map[string]string{}, map[string]string{}
+		e.do(c09Req{p: vfPkt{Type: rfStat, Path: tgt}, reading: true, label: "unprivileged/STAT/" + tgt}, "")
+		e.do(c09Req{p: vfPkt{Type: rfLstat, Path: tgt}, reading: true, label: "unprivileged/LSTAT/" + tgt}, "")
+		e.do(c09Req{p: vfPkt{Type: rfReadlink, Path: tgt}, reading: true, label: "unprivileged/READLINK/" + tgt}, "")
+	}
+	for _, tgt := range []string{"d", "ld", ".", "f"} {
+		e.do(c09Req{p: vfPkt{Type: rfOpendir, Path: tgt}, reading: true, label: "unprivileged/OPENDIR/" + tgt}, "$d")
+		e.do(c09Req{p: vfPkt{Type: rfReaddir, Handle: "$d"}, reading: true, label: "unprivileged/READDIR/" + tgt}, "")
+		e.closeHandles()
+		e.ro.hmap, e.rw.hmap = map[string]string{}, map[string]string{}
+	}
+	// and what modifies stays refused
+	e.do(c09Req{p: vfPkt{Type: rfRemove, Path: "f"}, label: "unprivileged/REMOVE/f"}, "")
+	e.do(c09Req{p: vfPkt{Type: rfOpen, Path: "f", Pflags: rfWrite_ | rfTrunc_}, label: "unprivileged/OPEN/write/f"}, "")
+}
+
 func c09Run(u *vfUnit) {
 	syscallUmask()
+	if u.Index == c09Units(u.Tier)-1 {
+		c09Unprivileged(u)
+		return
+	}
 	switch {
 	case u.Index < 2:
 		e, err := c09NewEnv(u, u.Index == 1)
